@@ -135,3 +135,14 @@ Proof.
     apply Z.eqb_neq in N. rewrite N. apply orb_true_r.
   - apply IH. rewrite step_direct. exact D.
 Qed.
+
+(* clause 8 can only fail at a step that started without a recorded ReservationRef *)
+Theorem trace_leak_shape fx ops : forall s mine,
+  leak_only_unrecorded mine (sj s) ops (obs_from fx s ops) = true.
+Proof.
+  induction ops as [|op t IH]; intros s mine; [reflexivity|].
+  rewrite obs_from_cons. cbn [leak_only_unrecorded obs_of o_job o_res]. apply andb_true_iff. split; [|apply IH].
+  destruct (timed_out (sj s) (sj (fst (step fx s op)))) eqn:T; [|reflexivity].
+  destruct (rref (sj s)) eqn:R; [|rewrite !orb_true_r; reflexivity].
+  rewrite (step_timeout fx s op T R). cbn. rewrite orb_true_r. reflexivity.
+Qed.
